@@ -34,8 +34,8 @@ Masked(fmt, x, o, a) ==
 ExpAttr(fmt, T, x, o, sep, tab, four) ==
   LET a0 == [x.a EXCEPT !.lemma = IF fmt = "export" /\ ~four THEN Dash2 ELSE @,
                         !.edge = IF fmt \in {"brackets", "discobrackets"} THEN Dash2 ELSE @]
-      \* (the default label EMPTY, given to a word without POS tag, carries no function to split off)
-      split == "gf_split" \in o /\ (fmt # "export" \/ x.d > 0) /\ a0.lab # DefaultLabel
+      \* (a label spelled like the default label EMPTY is split like any other: category EMPTY, no function)
+      split == "gf_split" \in o /\ (fmt # "export" \/ x.d > 0)
       a1 == IF split THEN [a0 EXCEPT !.lab = GfSplitLabel(a0.lab, sep), !.edge = GfSplitEdge(a0.lab, sep)] ELSE a0
       a2 == IF "replace_parens" \in o
             THEN [a1 EXCEPT !.lab = ReplParens(@, tab), !.word = ReplParens(@, tab), !.lemma = ReplParens(@, tab),
